@@ -3,7 +3,8 @@
    sequence. *)
 From Coq Require Import List ZArith NArith Bool.
 Require Import Mixin.Base.Res.
-Require Export Mixin.Model.RoundHash Mixin.Model.LiveRound.
+From Coq Require Export Uint63.
+Require Export Mixin.Model.RoundNum Mixin.Model.RoundHash Mixin.Model.LiveRound.
 Import ListNotations.
 Open Scope N_scope.
 
